@@ -104,6 +104,10 @@ var c05Wheres = []c05Where{
 		return ok && ref.Like(v, "%b_c%") && numGT(getPath(r, "a"), 0)
 	}},
 	{"cpuLoad > 1", func(r Row) bool { return numGT(getPath(r, "cpuLoad"), 1) }},
+	// text comparisons with the row's text below, at and above the bound
+	{"s >= 'abc'", func(r Row) bool { v, ok := getPath(r, "s").(string); return ok && v >= "abc" }},
+	{"s <= 'abc' AND b > 0", func(r Row) bool { v, ok := getPath(r, "s").(string); return ok && v <= "abc" && numGT(getPath(r, "b"), 0) }},
+	{"s > 'abc' OR s < 'abbc'", func(r Row) bool { v, ok := getPath(r, "s").(string); return ok && (v > "abc" || v < "abbc") }},
 }
 
 func c05Rows() []Row {
